@@ -2,6 +2,7 @@
 From Coq Require Import Relations.Relation_Operators Relations.Operators_Properties.
 From Ruler Require Import Tactics Bytes AList RuleSyntax TopoSort World Cmdlang Work Build Ops Inv
      BuildSpec Ideal BytesFacts InvFacts C01Script C01Hist.
+From Ruler Require BuildFacts.
 Local Open Scope N_scope.
 
 (* ================================================================== *)
@@ -649,7 +650,8 @@ Section BuildInv.
     forall t, In t (plan_targets pack) ->
       content_at (o_world (build teqb hc hl hr w rp goal)) t = content_at (scratch_world w pack) t.
   Proof.
-    intros Hinv Hhs Hi Hgn Hwf Hdet. unfold build. rewrite Hi, Hgn.
+    intros Hinv Hhs Hi Hgn Hwf Hdet. rewrite (BuildFacts.build_eq T teqb hc hl hr), Hi, Hgn.
+    cbv zeta. unfold BuildFacts.st_leaves, BuildFacts.joined.
     destruct (run_nodes T teqb hc hl hr (fold_left (run_leaf T teqb hc) (p_leaves pack) (mk_rs T w1 tbl [] [] [] []))
                         (p_nodes pack)) as [st2|] eqn:Erun; [|cbn; discriminate].
     pose proof (build_run_good _ _ _ _ _ Hinv Hhs Hi Hwf Hdet Erun) as [Hrs Hhist Hframe Hleaf Hsent Herr Hres].
@@ -675,7 +677,8 @@ Section BuildInv.
     forall t, In t (plan_targets pack) ->
       content_at (o_world (build teqb hc hl hr w rp goal)) t <> None.
   Proof.
-    intros Hinv Hhs Hi Hgn Hwf Hdet. unfold build. rewrite Hi, Hgn.
+    intros Hinv Hhs Hi Hgn Hwf Hdet. rewrite (BuildFacts.build_eq T teqb hc hl hr), Hi, Hgn.
+    cbv zeta. unfold BuildFacts.st_leaves, BuildFacts.joined.
     destruct (run_nodes T teqb hc hl hr (fold_left (run_leaf T teqb hc) (p_leaves pack) (mk_rs T w1 tbl [] [] [] []))
                         (p_nodes pack)) as [st2|] eqn:Erun; [|cbn; discriminate].
     pose proof (build_run_good _ _ _ _ _ Hinv Hhs Hi Hwf Hdet Erun) as [Hrs Hhist Hframe Hleaf Hsent Herr Hres].
@@ -700,12 +703,13 @@ Section BuildInv.
                          plan_wf pack /\ Forall det_node (p_nodes pack)) ->
     hist_sound (o_world (build teqb hc hl hr w rp goal)).
   Proof.
-    intros Hinv Hhs Hplan. unfold build.
+    intros Hinv Hhs Hplan. rewrite (BuildFacts.build_eq T teqb hc hl hr).
     destruct (init_dir T w) as [[w1 tbl]|f] eqn:Hi.
     2:{ cbn [o_world]. eapply hist_sound_sub; [apply init_dir_error_hist_sub | exact Hhs]. }
     pose proof (hist_sound_sub T teqb hc hl hr _ _ (init_dir_hist_sub _ _ _ Hi) Hhs) as Hhs1.
     destruct (get_nodes T w1 rp goal) as [pack|f] eqn:Hgn; [|exact Hhs1].
     destruct (Hplan _ _ _ eq_refl Hgn) as [Hwf Hdet].
+    cbv zeta. unfold BuildFacts.st_leaves, BuildFacts.joined.
     destruct (run_nodes T teqb hc hl hr (fold_left (run_leaf T teqb hc) (p_leaves pack) (mk_rs T w1 tbl [] [] [] []))
                         (p_nodes pack)) as [st2|] eqn:Erun.
     - pose proof (build_run_good _ _ _ _ _ Hinv Hhs Hi Hwf Hdet Erun) as [Hrs Hhist Hframe Hleaf Hsent Herr Hres].
